@@ -554,6 +554,76 @@ def cli_property(ctx, cat, e, en, ed, rng, tag):
     return cc.check_numbering(obs, {i: cat['flux'][i] for i in range(n)})
 
 
+def boundary_sources(e, orient, rng):
+    """four sources for the linking length e arcmin: A-B separated by e (1 - d), C-D by e (1 + d), d = x^2/48 with x = e in radians
+    (half the relative gap between the chord 2 sin(x/2) and the arc x, never below 1e-7), the two pairs more than 75 deg apart.  Separations
+    are exact by construction: along a meridian (same RA) or along the equator (dec = 0).  Classes wanted: {A, B}, {C}, {D}."""
+    from AegeanTools.models import ComponentSource
+    x = math.radians(e / 60.0)
+    d = max(x * x / 48.0, 1e-7)
+    s_in, s_out = e * (1 - d) / 60.0, e * (1 + d) / 60.0
+    if orient == 'meridian':
+        pos = [(10.0, -20.0), (10.0, -20.0 + s_in), (100.0, 5.0), (100.0, 5.0 - s_out)]
+    else:
+        pos = [(359.5, 0.0), ((359.5 + s_in) % 360.0, 0.0), (180.0, 0.0), (180.0 - s_out, 0.0)]
+    out = []
+    for i, (ra, dec) in enumerate(pos):
+        c = ComponentSource()
+        c.ra, c.dec = ra, dec
+        c.peak_flux = float([3, 7, 2, 5][i])
+        c.a, c.b, c.pa = 20.0, 10.0, 0.0
+        c.island, c.source = rng.randint(0, 5), rng.randint(0, 3)
+        c.int_flux, c.flags, c.background, c.local_rms = 1.0, 0, 0.25, 0.5
+        c.ra_str, c.dec_str = f'r{i}', f'd{i}'
+        c.uuid = f'v{i}'
+        out.append(c)
+    return out, pos, (s_in * 60, s_out * 60)
+
+
+def cli_boundary(ctx, e, orient, rng, tag):
+    """AeReg --eps e on pairs just inside / just outside the linking length (the arcmin -> chord conversion at its boundary)"""
+    import logging
+    import os
+    from AegeanTools import catalogs
+    from AegeanTools.CLI import AeReg
+    srcs, pos, (s_in, s_out) = boundary_sources(e, orient, rng)
+    base = os.path.join(ctx.work, f'clib_{tag}')
+    catalogs.save_catalog(base + '.csv', srcs)
+    rc = AeReg.main(['--input', base + '_comp.csv', '--table', base + '_out.csv', '--eps', repr(e)])
+    logging.getLogger('Aegean').setLevel(logging.CRITICAL)
+    if rc != 0:
+        return f'AeReg returned {rc}', pos
+    t = catalogs.load_table(base + '_out_comp.csv')
+    groups = {}
+    for r in t:
+        groups.setdefault(int(r['island']), []).append(int(str(r['uuid'])[1:]))
+    got = sorted(sorted(g) for g in groups.values())
+    if got != [[0, 1], [2], [3]]:
+        return (f'AeReg --eps {e!r} ({orient}): sources 0,1 are {s_in!r} arcmin apart and sources 2,3 are {s_out!r} arcmin apart; '
+                f'wanted groups [[0, 1], [2], [3]], got {got}'), pos
+    return None, pos
+
+
+BOUNDARY_EPS = (0.5, 4.0, 30.0, 60.0, 300.0, 600.0, 1800.0, 3000.0)
+
+
+def run_cli_boundary(ctx):
+    """returns the first violation dict or None"""
+    first = None
+    for k, e in enumerate(BOUNDARY_EPS):
+        for orient in ('meridian', 'equator'):
+            try:
+                msg, pos = cli_boundary(ctx, e, orient, ctx.rng, f'{k}{orient[0]}')
+            except Exception as ex:  # noqa
+                msg, pos = f'AeReg raised {type(ex).__name__}: {ex}', None
+            ctx.case(key=('cli-boundary', e, orient), bucket='AeReg-cli linking length boundary')
+            if msg:
+                v = {'kind': 'cli-boundary', 'eps_arcmin': e, 'orient': orient, 'positions_deg': pos, 'what': msg}
+                ctx.mismatch('AeReg command line at the boundary of the linking length', v, impl=msg, is_violation=v)
+                first = first or v
+    return first
+
+
 def run_cli(ctx):
     rng = ctx.rng
     for k in range(3 if ctx.tier == 'quick' else 12):
@@ -588,6 +658,7 @@ def run(ctx, model_ok=True):
     nd = run_greedy(ctx, model_ok)
     rs = run_resize(ctx)
     run_cli(ctx)
+    run_cli_boundary(ctx)
     run_certified(ctx, model_ok, emb, nd, rs)
 
 
@@ -595,6 +666,10 @@ def run(ctx, model_ok=True):
 def search(ctx):
     rng = ctx.rng
     t0 = time.time()
+    if not any(f.get('case', {}).get('kind') == 'cli-boundary' for f in getattr(ctx, 'failures', []) if isinstance(f.get('case'), dict)):
+        v = run_cli_boundary(ctx)
+        if v:
+            return v
     while time.time() - t0 < 100:
         n = rng.choice([1, 2, 3, 4, 5, 6, 8, 12, 20, 40])
         cat = cc.gen_lattice_catalogue(rng, n)
@@ -681,6 +756,11 @@ def replay(ctx, obj):
                     msg = f"row order {fi['rows']}: result {obs} differs from {obs0}"
         except Exception as ex:  # noqa
             msg = f'regroup raised {type(ex).__name__}: {ex}'
+    elif kind == 'cli-boundary':
+        try:
+            msg, _ = cli_boundary(ctx, fi['eps_arcmin'], fi['orient'], ctx.rng, 'replay')
+        except Exception as ex:  # noqa
+            msg = f'AeReg raised {type(ex).__name__}: {ex}'
     elif kind == 'cli':
         cat = {'pts': [tuple(p) for p in fi['pts']], 'flux': fi['flux'], 'style': 'replay'}
         try:
